@@ -22,7 +22,10 @@ Variable fast : blocks B -> nat * blocks B -> nat -> E.
 Variable explicit : blocks B -> E.
 Variable Orc : oracle B.
 Variable C : config.
-Hypothesis Hfast : forall cur k snap, (forall j, j <> k -> snap j = cur j) -> fast cur (k, snap) k = errT (repr cur).
+(* okmode: the modes for which the shortcut is known to be right (for the CP algebra: k < order of the tensor) *)
+Variable okmode : nat -> Prop.
+Hypothesis Hfast : forall cur k snap, okmode k -> (forall j, j <> k -> snap j = cur j) -> fast cur (k, snap) k = errT (repr cur).
+Hypothesis Hok : okmode (last (modes C) 0).
 Hypothesis Hexp : forall st, explicit st = errT (repr st).
 Hypothesis Hnorm : forall st, repr (normalized Orc st) = repr st.
 Hypothesis WF : well_formed C.
@@ -73,7 +76,7 @@ Proof.
   assert (H1 : Forall good_event (trace l1)) by (apply sweep_good; exact H0).
   destruct (sweep_cache it (last (modes C) 0) (modes C) l0 Hne eq_refl) as [Hc1 Hc2]. fold l1 in Hc1, Hc2.
   assert (Hf : fast (cur l1) (cache l1) (pair_with C) = errT (repr (cur l1))).
-  { rewrite (surjective_pairing (cache l1)), Hp, Hc1. apply Hfast. exact Hc2. }
+  { rewrite (surjective_pairing (cache l1)), Hp, Hc1. apply Hfast; [exact Hok | exact Hc2]. }
   destruct (line_iter C it).
   - destruct (accept Orc it).
     + apply report_inv; simpl; [apply Forall_snoc; simpl; auto | apply Hexp].
@@ -99,7 +102,7 @@ Proof.
   destruct (stop Orc it); [apply emit_inv; simpl; auto | apply IHn; exact H1].
 Qed.
 
-Theorem skeleton_sound n init :
+Theorem skeleton_sound_gen n init :
   let l := run fast explicit Orc C n init in
   Forall good_event (trace l) /\ last_report_ok l /\ last (trace l) EBreak = EReturn (cur l).
 Proof.
@@ -115,6 +118,21 @@ Proof.
   - apply last_last.
 Qed.
 End SK.
+
+(* the unrestricted form (shortcut right for every mode number) *)
+Theorem skeleton_sound (B E T : Type) (repr : blocks B -> T) (errT : T -> E)
+  (fast : blocks B -> nat * blocks B -> nat -> E) (explicit : blocks B -> E) (Orc : oracle B) (C : config) :
+  (forall cur k snap, (forall j, j <> k -> snap j = cur j) -> fast cur (k, snap) k = errT (repr cur)) ->
+  (forall st, explicit st = errT (repr st)) ->
+  (forall st, repr (normalized Orc st) = repr st) ->
+  well_formed C ->
+  forall (n : nat) (init : blocks B),
+  let l := run fast explicit Orc C n init in
+  Forall (good_event B E T repr errT) (trace l) /\ last_report_ok B E T repr errT l /\ last (trace l) EBreak = EReturn (cur l).
+Proof.
+  intros Hf He Hn WF n init.
+  apply (skeleton_sound_gen B E T repr errT fast explicit Orc C (fun _ => True)); auto.
+Qed.
 
 (* ------------------------------------------------------------------ a toy instance meeting the hypotheses,
    used to show that the two historical orderings are not sound.  Two blocks of naturals, the iterate
